@@ -48,8 +48,8 @@ def callee(key, **kw):
 def gen(f):
     path = os.path.join(REPO, f.file)
     fdef, src = symexec.get_function(path, f.qual)
-    contracts = {k: CALLEES[k] for k in f.uses}
-    contracts['__methods__'] = [k[2:] for k in f.uses if k.startswith('m:')]
+    contracts = {k: CALLEES.get(k, True) for k in f.uses}
+    contracts['__methods__'] = [k[2:] for k in f.uses if k.startswith('m:')] + [k[4:] for k in f.uses if k.startswith('acc:')]
     ex = HeapExec(contracts=contracts, loop_invariants=f.invariants, list_attrs=f.list_attrs, dict_attrs=f.dict_attrs, ghost=f.ghost)
     st = State()
     argnames = [a.arg for a in fdef.args.args]
@@ -115,6 +115,71 @@ def gen(f):
     return obls, {'dropped': ex.dropped, 'lines': len(src.splitlines())}
 
 
+def witness_candidates(goal, bound):
+    """ground terms worth trying as existential witnesses: list lengths read in the goal, loop indices, 0"""
+    out = [ir.const(0)]
+    seen = set()
+    for n in ir.walk(goal):
+        if n.op == 'uf' and str(n.val).startswith('len:') and not (set(ir.free_vars(n)) & set(bound)):
+            if n.id not in seen: seen.add(n.id); out.append(n); out.append(ir.sub(n, 1))
+        if n.op == 'var' and '_it' in n.val and n.val not in bound and n.id not in seen:
+            seen.add(n.id); out.append(n)
+    return out[:12]
+
+
+def instantiate_exists(t, cands):
+    """strengthen a goal: every positively occurring `exists k. body` (directly under or / and) becomes the disjunction of
+    body[k := c] over the candidate witnesses (which implies the existential)"""
+    if t.op == 'exists' and len(t.val) == 1:
+        k = t.val[0]
+        return ir.bor_(*[ir.substitute(t.args[0], {k: c}) for c in cands])
+    if t.op in ('or', 'and'):
+        args = [instantiate_exists(a, cands) for a in t.args]
+        return ir.bor_(*args) if t.op == 'or' else ir.band_(*args)
+    return t
+
+
+def case_split(hy, goal, timeout_s):
+    """proof by cases for a universally quantified goal: (forall x. x != c -> phi(x)) and phi(c), for a bound variable x and a
+    loop-index term c occurring free in the goal.  Both parts are discharged by the solver; the split itself is a tautology."""
+    names = list(goal.val); body = goal.args[0]
+    fv = ir.free_vars(goal)
+    cands = [t for n, t in fv.items() if t.op == 'var' and '_it' in n and n not in names]
+    t0 = time.time()
+    for b in names:
+        bv = ir.var(b)
+        for c in cands:
+            part1 = ir.forall(names, ir.implies(ir.ne(bv, c), body))
+            part2 = ir.forall([n for n in names if n != b], ir.substitute(body, {b: c})) if len(names) > 1 else ir.substitute(body, {b: c})
+            v1 = smt.prove(hy, part1, mode='int', timeout_s=timeout_s, use_cvc5=False)
+            if v1.status != 'proved': continue
+            v2 = smt.prove(hy, part2, mode='int', timeout_s=timeout_s, use_cvc5=False)
+            if v2.status != 'proved':
+                inner = part2.args[0] if part2.op == 'forall' else part2
+                bound = list(part2.val) if part2.op == 'forall' else []
+                strong = instantiate_exists(inner, witness_candidates(inner, set(names)))
+                if strong is not inner:
+                    g2 = ir.forall(bound, strong) if bound else strong
+                    v2 = smt.prove(hy, g2, mode='int', timeout_s=timeout_s, use_cvc5=False)
+            if v2.status == 'proved':
+                return smt.Verdict('proved', 'z3', time.time() - t0, mode='int', reason='by cases on %s = %s' % (b, c.val))
+    # range split: (forall x. x < c -> phi) and (forall x. x >= c -> phi) for list lengths c read in the goal
+    for b in names:
+        bv = ir.var(b)
+        pool = witness_candidates(body, set(names))
+        for h_ in hy[-6:]:
+            for c_ in witness_candidates(h_, set(names)):
+                if c_ not in pool and c_.op == 'uf': pool.append(c_)
+        for c in pool[:16]:
+            if c.op == 'const': continue
+            lo = smt.prove(hy, ir.forall(names, ir.implies(ir.lt(bv, c), body)), mode='int', timeout_s=timeout_s, use_cvc5=False)
+            if lo.status != 'proved': continue
+            hi = smt.prove(hy, ir.forall(names, ir.implies(ir.ge(bv, c), body)), mode='int', timeout_s=timeout_s, use_cvc5=False)
+            if hi.status == 'proved':
+                return smt.Verdict('proved', 'z3', time.time() - t0, mode='int', reason='by cases on %s < / >= %s' % (b, ir.show(c, 3)))
+    return None
+
+
 def verify(f, timeout_s=20):
     out = []
     t0 = time.time()
@@ -125,6 +190,9 @@ def verify(f, timeout_s=20):
                  'mode': 'heap', 'seconds': time.time() - t0}]
     for (cl, hy, goal) in obls:
         v = smt.prove(hy, goal, mode='int', timeout_s=f.timeout or timeout_s, use_cvc5=False)
+        if v.status != 'proved' and goal.op == 'forall':
+            v2 = case_split(hy, goal, f.timeout or timeout_s)
+            if v2 is not None: v = v2
         out.append({'oid': '%s#%s' % (f.oid, cl), 'status': 'proved' if v.status == 'proved' else 'unknown',
                     'mode': 'heap/quantified', 'backend': v.backend, 'seconds': round(v.seconds, 4), 'reason': v.reason if v.status != 'refuted' else 'sat (heap-mode models are not replayable; see the bounded stand-in)',
                     'model': {k: v_ for k, v_ in (v.model or {}).items() if not k.startswith(('fr', 'j', 'k'))} if v.status == 'refuted' else None,
